@@ -304,6 +304,9 @@ class Histogram1D(ObjectWithBinning, HistogramBase):
 
         Note: underflow values are not considered
         """
+        if self._frequencies.dtype.kind == "f":
+            # Running sums of float16 / float32 contents in double precision (as the total)
+            return self._frequencies.cumsum(dtype=np.float64)
         return self._frequencies.cumsum()
 
     @property
